@@ -31,6 +31,35 @@ def run_cases(cases):
             model[k] = mm.groups()
     return True, real, model, p.stderr[-1000:]
 
+def rejected_invocations(log):
+    """rustc errors located inside a `matching!(..)` invocation of the generated file -> [(case ident, source line, first error line)]"""
+    try:
+        src = open(GEN_FILE).read().split('\n')
+    except OSError:
+        return []
+    out, seen = [], set()
+    errs = re.split(r'\n(?=error)', log)
+    for e in errs:
+        m = re.search(r'gen_matching_cases\.rs:(\d+):(\d+)', e)
+        if not m or not e.startswith('error'):
+            continue
+        ln = int(m.group(1)) - 1
+        if not (0 <= ln < len(src)) or 'matching!(' not in src[ln]:
+            continue
+        col = int(m.group(2))
+        if col < src[ln].index('matching!('):
+            continue
+        k = ln
+        while k >= 0 and not src[k].startswith('fn case_'):
+            k -= 1
+        if k < 0:
+            continue
+        ident = re.match(r'fn case_(\w+)\(', src[k]).group(1)
+        if ident not in seen:
+            seen.add(ident)
+            out.append((ident, src[ln], e.split('\n')[0]))
+    return out
+
 class Check:
     prop = 'C06'
     theorems = ['evalArms_success_prefix', 'evalArms_tail_rejects', 'C06_matching_equiv_match', 'C06_diagnostics_do_not_decide', 'C06_empty_accepts_all']
@@ -56,8 +85,16 @@ class Check:
         cases = gm.gen_cases(seed, self.n_cases(tier))
         ok, real, model, log = run_cases(cases)
         if not ok:
-            path = engine.write_replay(self.prop, 'build', log + '\n', ["the generated matching! sample no longer compiles against /repo"])
-            rep.violation(path, "generated matching! sample does not compile", no_input=True)
+            bad = rejected_invocations(log)
+            for (ident, line, err) in bad[:2]:
+                text = gm.macro_text(next(c for c in cases if c.ident == ident))
+                path = engine.write_replay(self.prop, 'spec', f"matching!({text})\n{line.strip()}\n{err}\n", [
+                    f"property C06 violated by the real code: rustc rejects the invocation matching!({text}) although the equivalent native `match` on the same arguments compiles (it is part of the same generated function and draws no error)",
+                    "replay: the invocation above, in a crate depending on /repo; generated by vlib/gen_matching.py case " + ident])
+                rep.violation(path, f"matching!({text}) does not compile ({err[:120]}) while the equivalent match does")
+            if not bad:
+                path = engine.write_replay(self.prop, 'build', log + '\n', ["the generated matching! sample no longer compiles against /repo"])
+                rep.violation(path, "generated matching! sample does not compile", no_input=True)
             rep.coverage.update({'evaluations': 0, 'distinct_nontrivial': 0, 'rule': self.rule(), 'samples': []})
             return rep.finish()
         spec_bad, tie_bad, samples = [], [], []
